@@ -39,7 +39,7 @@ def rnd_hash(r, edges):
 def rnd_probe(r, L, ps):
     t = r.below(8)
     bc = 1 << L
-    c = [0, 1, (1 << ps) - 1, 1 << ps, (1 << ps) + 1, 2, 3][t] if t < 7 else r.below(bc)
+    c = [0, 1, (1 << ps) - 1, 1 << ps, (1 << ps) + 1, bc - 1, bc - 2][t] if t < 7 else r.below(bc)
     return min(max(c, 0), max(bc - 1, 0))
 
 def rnd_L(r):
@@ -73,7 +73,8 @@ def gen_cases(ctx, scale):
     for i in range(n):
         L = rnd_L(r); h = rnd_hash(r, edges); ps = (L + 7) % 8; probe = rnd_probe(r, L, ps); idx = r.below(3)
         newL = rnd_newL(r, L); full = r.next()
-        sh = [r.below(256) for _ in range(3)]; hp = [r.choice([255, r.below(256)]) for _ in range(3)]
+        BYTES = [0, 1, 127, 128, 129, 254, 255]
+        sh = [r.choice(BYTES + [r.below(256)] * 4) for _ in range(3)]; hp = [r.choice(BYTES + [r.below(256)] * 4) for _ in range(3)]
         if r.chance(2, 3):   # a slot consistent with a real insertion of (h, L, probe): the property applies
             bidx = ((h & ((1 << L) - 1)) + tri(probe)) & ((1 << L) - 1)
             sh[idx] = h >> 57; hp[idx] = o2_pack(h, L, probe)
@@ -82,7 +83,7 @@ def gen_cases(ctx, scale):
                 exp = full if (hp[idx] == 255 or qof(L) != qof(newL)) else known(qof(L), h)
             out.append((0, 'o2get %s %s %d %d %d %d %d' % (' '.join(map(str, sh)), ' '.join(map(str, hp)), full, bidx, L, newL, idx), exp))
         else:
-            bidx = r.below(1 << L)
+            bidx = r.choice([0, (1 << L) - 1, r.below(1 << L), r.below(1 << L)])
             out.append((0, 'o2get %s %s %d %d %d %d %d' % (' '.join(map(str, sh)), ' '.join(map(str, hp)), full, bidx, L, newL, idx), None))
     # ---- LimP4 (hashCount 4 and 6)
     for H in (4, 6, 8):
@@ -98,7 +99,7 @@ def gen_cases(ctx, scale):
         for i in range(n // 2):
             L = rnd_L(r); h = rnd_hash(r, edges); ps = (L + 6) % 8; probe = rnd_probe(r, L, ps); idx = r.below(4)
             newL = rnd_newL(r, L); full = r.next()
-            s = [r.choice([255, r.below(256)]) for _ in range(H)]
+            s = [r.choice([0, 1, 127, 128, 129, 254, 255, 255] + [r.below(256)] * 6) for _ in range(H)]
             if r.chance(2, 3) and H - 1 - idx > idx:
                 bidx = ((h & ((1 << L) - 1)) + probe) & ((1 << L) - 1)
                 s[idx] = h >> 57; s[H - 1 - idx] = p4_pack(h, L, probe)
@@ -180,6 +181,27 @@ def gen_cases(ctx, scale):
             hs.append(h)
         rem = sorted(set(r.range(1, nk) for _ in range(r.below(1 + nk // 2)))) if r.chance(1, 2) else []
         out.append((0, 'tone %d %d %d %s %s' % (L, L1, len(rem), ' '.join(map(str, rem)), ' '.join(map(str, hs))), None))
+    # natural growth: the table is filled EXACTLY to its capacity and one more Insert triggers pvAddGrow (the new element is
+    # placed in the new table before the old generation is relocated); Open2N2 grows by 1 doubling, LimP4 by 2
+    for i in range(14 * scale):
+        L = r.choice([0, 1, 2, 3, 4, 5, 1, 2]); cap = int((1 << L) * 3 / 12.0 * 11.0)
+        lowbits = r.choice([L, L + 1, max(0, L - 1), 1, 12])
+        hs = []
+        for _ in range(cap + 1):
+            h = rnd_hash(r, edges)
+            if r.chance(1, 2): h = (h & ~((1 << 16) - 1) & M64) | r.below(1 << lowbits)
+            hs.append(h)
+        out.append((0, 'tbl2 %d %d 0 -2 0 %s' % (L, L + 1, ' '.join(map(str, hs))), None))
+    for H in (4, 6, 8):
+        for i in range(8 * scale):
+            L = r.choice([0, 1, 2, 3, 4]); cap = (1 << L) * 2
+            lowbits = r.choice([L, L + 2, max(0, L - 1), 1, 12])
+            hs = []
+            for _ in range(cap + 1):
+                h = rnd_hash(r, edges)
+                if r.chance(1, 2): h = (h & ~((1 << 16) - 1) & M64) | r.below(1 << lowbits)
+                hs.append(h)
+            out.append((H, 'tp4c %d %d %d 0 -2 0 %s' % (H, L, L + 2, ' '.join(map(str, hs))), None))
     # growing FROM 2 buckets (probe shift 0: every element needs the full getter -> throwing getter -> chained generations)
     for i in range(12 * scale):
         nk = r.range(2, 5); hs = [rnd_hash(r, edges) for _ in range(nk)]
@@ -214,19 +236,28 @@ def set_cases(ctx, scale):
         for j in range(3 * scale):
             mode = r.choice([2, 3, 4, 6, 7, 8]); param = r.below(30); start = r.below(5)
             ops = []
-            for _ in range(r.range(2, 6)):
-                t = r.below(4)
+            for _ in range(r.range(2, 7)):
+                t = r.below(8)
                 if t == 0: ops.append('r %d' % r.range(3, 15 if kind != 'p4' else 14))
                 elif t == 1: ops.append('e %d' % r.below(1000))
+                elif t == 2: ops.append(r.choice(['k 0', 'm 0', 'x %d' % r.below(1000), 'x %d' % r.below(1000), 'c 0', 'c 1']))   # copy+Swap, move+Swap, Extract+Insert(ExtractedItem&&), Clear
                 else: ops.append('i %d' % r.range(1, 1500))
             ops.append('r %d' % r.choice([10, 11, 17, 18, 19]))
             cs.append('set %s %d %d %d %s' % (kind, mode, param, start, ' '.join(ops)))
+    # audit round: bucket parameters and key categories the quantifier names but the main kinds do not reach
+    #   maxCount variants (LimP4<1..3>, Open2N2<1,2>), 4-byte / 16-byte / std::string keys (LimP4 minMemPoolIndex 1 and 2,
+    #   BucketOne with a 32-bit state = always recompute), every public operation that can precede a growth
+    for kind in ('p4', 'o2', 'o8', 'one', 'p4m1', 'p4m2', 'p4m3', 'o2m1', 'o2m2', 'p4k4', 'p4k16', 'p4s', 'o8s', 'o2k4', 'onek4', 'onek16'):
+        cs.append('set %s 2 0 3 i 900 r 11 e 5 e 77 x 3 i 300 k 0 r 13 m 0 i 200 r 19' % kind)
+        cs.append('set %s 7 %d 3 i 250 r 9 x 9 r 10 c 0 i 120 r 11 r 18' % (kind, r.below(12)))   # few distinct low bytes: long displacements
+        if scale > 1:
+            cs.append('set %s 2 0 4 i 12000' % kind)
     # BucketOne tables of fewer than 2 buckets have capacity 0 with the default load factor (MOMO_CHECK in pvAddGrow):
     # start those at 2^3 like HashTraitsStd does; Open2N2/Open8 start at the requested size (1, 2, 4 buckets exist)
     fixed = []
     for c in cs:
         w = c.split()
-        if w[1] == 'one' and int(w[4]) < 3: w[4] = '3'
+        if w[1].startswith('one') and int(w[4]) < 3: w[4] = '3'
         fixed.append(' '.join(w))
     return fixed
 
@@ -260,11 +291,21 @@ def check_outputs(ctx, triples, lines):
             ctx.nontrivial.add(c)     # reconstruction path taken (answer is not the full getter's value)
     return bad
 
+SETSTAT = {}
+
 def check_sets(ctx, cases, lines):
     bad = []
     for c, out in zip(cases, lines):
         try:
             kv = dict(x.split('=', 1) for x in out.split())
+            st = SETSTAT.setdefault(c.split()[1], {'scripts': 0, 'growths': 0, 'class_crossings': 0, 'elements_relocated_from_stored_bits': 0,
+                                                   'full_hash_recomputations': 0, 'max_log_bucket_count': 0, 'max_displacement': 0,
+                                                   'ops_insert_reserve_remove_clear_copy_move_extract': [0] * 7})
+            st['scripts'] += 1; st['growths'] += int(kv['grow']); st['class_crossings'] += int(kv['crossed'])
+            st['elements_relocated_from_stored_bits'] += int(kv['reused']); st['full_hash_recomputations'] += int(kv['full'])
+            st['max_log_bucket_count'] = max(st['max_log_bucket_count'], int(kv['maxL']))
+            st['max_displacement'] = max(st['max_displacement'], int(kv.get('maxdisp', 0)))
+            for i, v in enumerate(kv.get('ops', '0,0,0,0,0,0,0').split(',')): st['ops_insert_reserve_remove_clear_copy_move_extract'][i] += int(v)
             if int(kv['notfound']) or int(kv['bitsbad']) or int(kv['fullbad']):
                 bad.append((c, out, 'HashSet growth: notfound=%s bitsbad=%s fullbad=%s first=%s' % (kv['notfound'], kv['bitsbad'], kv['fullbad'], kv['first'])))
             if int(kv['grow']) > 0 and int(kv['reused']) > 0 and int(kv['crossed']) > 0:
@@ -278,8 +319,9 @@ LOW32 = ('-DC12_LOWMEM', '-DMOMO_MEM_MANAGER_PTR_USEFUL_BIT_COUNT=32', '-no-pie'
 def build_harnesses(ctx):
     """three builds: LimP4 hashCount 4 (64-bit PtrState), 6 (48-bit), 8 (32-bit: all momo memory from an mmap(MAP_32BIT)
     arena, non-PIE, never sanitized because the sanitizer runtimes own the low address space)"""
-    res = ctx.cxx_many([('harness.cpp', 'harness', ()), ('harness.cpp', 'harness48', ('-DMOMO_MEM_MANAGER_PTR_USEFUL_BIT_COUNT=48',))])
-    ctx.h8 = ctx.cxx('harness.cpp', 'harness32', LOW32, sanitize=False)
+    res = ctx.cxx_many([('harness.cpp', 'harness', ('-DC12_EXPECT_HC=4',)),
+                        ('harness.cpp', 'harness48', ('-DMOMO_MEM_MANAGER_PTR_USEFUL_BIT_COUNT=48', '-DC12_EXPECT_HC=6'))])
+    ctx.h8 = ctx.cxx('harness.cpp', 'harness32', LOW32 + ('-DC12_EXPECT_HC=8',), sanitize=False)
     if ctx.h8 is None:
         return None, None
     return res.get('harness'), res.get('harness48')
@@ -328,6 +370,17 @@ def run(ctx):
     if h4 is None or h6 is None:
         ctx.stage('build-harness', False, getattr(ctx, 'last_cxx_error', ''))
         return ctx.finish(rule=RULE)
+    # configuration facts printed by each build (class selection itself is proved by static_asserts in harness.cpp)
+    cfgs = {}
+    for name, exe, hc in (('h4', h4, 4), ('h6', h6, 6), ('h8', ctx.h8, 8)):
+        rc, lines, err = run_real(ctx, exe, ['cfg'], 'cfg')
+        kv = dict(x.split('=') for x in (lines[0].split() if lines else []))
+        cfgs[name] = kv
+        okc = kv.get('hashCount') == str(hc) and kv.get('min8') == '2' and kv.get('min16') == '1' and kv.get('one4state') == '4' and kv.get('o8max') == '3'
+        ctx.tie_obligations.append({'name': 'configuration %s: hashCount=%d, minMemPoolIndex 2 (8-byte key) / 1 (16-byte key), Open8 -> Open2N2<3,true>' % (name, hc), 'ok': okc})
+        if not okc:
+            ctx.stage('config-' + name, False, 'unexpected configuration: %r' % kv)
+    ctx.coverage['configurations'] = cfgs
     triples = gen_cases(ctx, scale)
     have_model = ctx.stages.get('prove', {}).get('ok') and ctx.stages.get('regen', {}).get('ok') and ctx.extract()
     groups = {'h4': ([t for t in triples if t[0] in (0, 4)], h4), 'h6': ([t for t in triples if t[0] == 6], h6),
@@ -360,7 +413,7 @@ def run(ctx):
     for exe, hc in ((h4, 4), (h6, 6), (ctx.h8, 8)):
         # one process per case: a crash (assert) is attributed to its case
         for c in sets:
-            if hc != 4 and not c.startswith('set p4'):
+            if hc != 4 and c.split()[1] not in ('p4', 'p4k16', 'p4s'):
                 continue          # the pointer-width builds differ only in BucketLimP4
             rc, lines, err = run_real(ctx, exe, [c], 'set')
             ctx.evaluations += 1
@@ -374,6 +427,26 @@ def run(ctx):
     allc = [t[1] for t in triples] + sets
     for c in allc[::max(1, len(allc) // 6)][:6]:
         ctx.add_sample(c[:300])
+    # measured (not planned) per-dimension counts
+    tiestat = {}
+    for gname, (ts, exe) in groups.items():
+        rc, lines, err = run_real(ctx, exe, [t[1] for t in ts if t[1].split()[0] in ('tbl', 'tbl2', 'tp4', 'tp4c', 'tone')], 'stat-' + gname)
+        d = tiestat.setdefault(gname, {'table_cases': 0, 'first_reserve_left_two_generations': 0, 'natural_growth_at_capacity': 0,
+                                       'cases_with_full_getter_calls': 0, 'cases_with_removals': 0})
+        for t, out in zip([t for t in ts if t[1].split()[0] in ('tbl', 'tbl2', 'tp4', 'tp4c', 'tone')], lines):
+            w = t[1].split(); d['table_cases'] += 1
+            if 'gens=2' in out: d['first_reserve_left_two_generations'] += 1
+            if (w[0] == 'tbl2' and w[4] == '-2') or (w[0] == 'tp4c' and w[5] == '-2'): d['natural_growth_at_capacity'] += 1
+            if not out.startswith('calls=0 '): d['cases_with_full_getter_calls'] += 1
+            pos = {'tbl2': 5, 'tp4': 4, 'tp4c': 6, 'tone': 3}.get(w[0])
+            nrem = w[pos] if pos is not None and len(w) > pos else '0'
+            if nrem != '0': d['cases_with_removals'] += 1
+    ctx.coverage['container_oracle_by_configuration'] = SETSTAT
+    ctx.coverage['table_tie_by_build'] = tiestat
+    Ls = [int(t[1].split()[-3]) for t in triples if t[1].startswith(('o2get', 'p4get'))]
+    ctx.coverage['bucket_level_logBucketCount_histogram'] = {'0..9': sum(1 for x in Ls if x < 10), '10..57': sum(1 for x in Ls if 10 <= x <= 57),
+                                                            '58..63': sum(1 for x in Ls if x > 57), 'L mod 8 == 1 (probe shift 0)': sum(1 for x in Ls if x % 8 == 1),
+                                                            'L mod 8 == 2 (first of class)': sum(1 for x in Ls if x % 8 == 2)}
     ctx.coverage['input_distribution'] = {k: sum(1 for c in allc if c.startswith(k)) for k in
                                           ('o2add', 'o2rem', 'o2get', 'p4set', 'p4rem', 'p4get', 'p4seq', 'tbl', 'tp4', 'tone', 'one', 'start', 'next', 'short', 'set')}
     return ctx.finish(rule=RULE)
